@@ -137,7 +137,7 @@ func run(pr program) (out runOut) {
 			return cb
 		case "bulkhead":
 			if bh == nil {
-				bh = bulkhead.Builder[int](uint(1+ps.P%3)).WithMaxWaitTime(time.Duration(ps.P%4) * 100 * time.Microsecond).
+				bh = bulkhead.Builder[int](uint(1 + ps.P%3)).WithMaxWaitTime(time.Duration(ps.P%4) * 100 * time.Microsecond).
 					OnFull(func(e failsafe.ExecutionEvent[int]) { touch(e) }).Build()
 			}
 			return bh
